@@ -813,9 +813,15 @@ impl Iterator for ClosestBucketsIter {
                     self.state = ClosestBucketsIterState::ZoomIn(i);
                     Some(i)
                 } else {
-                    let i = BucketIndex(0);
-                    self.state = ClosestBucketsIterState::ZoomOut(i);
-                    Some(i)
+                    // All buckets closer to the local key have been visited. Bucket `0` is the
+                    // first bucket to zoom out to, unless it has already been yielded.
+                    let first = BucketIndex(0);
+                    self.state = ClosestBucketsIterState::ZoomOut(first);
+                    if i.get() != 0 && !self.distance.0.bit(0) {
+                        Some(first)
+                    } else {
+                        self.next()
+                    }
                 }
             }
             ClosestBucketsIterState::ZoomOut(i) => {
